@@ -16,10 +16,11 @@ import (
 )
 
 type member struct {
-	beh   []mbt.Step
-	v     variant
-	trace []hrec
-	fail  *failure
+	beh        []mbt.Step
+	v          variant
+	trace      []hrec
+	fail       *failure
+	leftMerges int
 }
 
 func famOf(beh []mbt.Step) int {
@@ -62,7 +63,7 @@ func runFamilies(f *mbt.Flags, cfg *config, behs [][]mbt.Step) {
 						fl = nil
 					}
 				}
-				m.fail, m.trace = fl, e.trace
+				m.fail, m.trace, m.leftMerges = fl, e.trace, e.leftMerges
 				mu.Lock()
 				steps += int64(len(m.beh))
 				mu.Unlock()
@@ -71,7 +72,10 @@ func runFamilies(f *mbt.Flags, cfg *config, behs [][]mbt.Step) {
 	}
 	wg.Wait()
 	reported := map[string]int{}
-	okc := 0
+	okc, leftMerges := 0, 0
+	for _, m := range ms {
+		leftMerges += m.leftMerges
+	}
 	for mi, m := range ms {
 		if m.fail == nil {
 			okc++
@@ -146,7 +150,7 @@ func runFamilies(f *mbt.Flags, cfg *config, behs [][]mbt.Step) {
 		mbt.Sample(brief(behs[i]))
 	}
 	mbt.Summary(map[string]any{"behaviours": len(behs), "replays": len(ms), "replays_ok": okc, "steps": steps, "flaky": flaky,
-		"families": len(ids), "positions": positions, "cross_comparisons": compared, "min_members": minMembers})
+		"inner_merges_into_untouched_left": leftMerges, "families": len(ids), "positions": positions, "cross_comparisons": compared, "min_members": minMembers})
 	mbt.Flush()
 }
 
